@@ -54,7 +54,7 @@ pub(super) struct MqttSharedQueues {
     inflight: VecDeque<(num::NonZeroU16, Option<pool::Sender<Ack>>, AckType)>,
     inflight_ids: HashSet<num::NonZeroU16>,
     waiters: VecDeque<pool::Sender<()>>,
-    rx: Option<pool::Receiver<Ack>>,
+    rx: VecDeque<(num::NonZeroU16, pool::Receiver<Ack>)>,
 }
 
 pub(super) struct MqttSinkPool {
@@ -79,7 +79,7 @@ impl MqttShared {
                 inflight: VecDeque::with_capacity(8),
                 inflight_ids: HashSet::default(),
                 waiters: VecDeque::new(),
-                rx: None,
+                rx: VecDeque::new(),
             }),
             receive_max: Cell::new(0),
             topic_alias_max: Cell::new(0),
@@ -423,14 +423,14 @@ impl MqttShared {
                     let _ = tx.send(pkt);
                 }
                 let (tx, rx) = self.pool.queue.channel();
-                queues.rx = Some(rx);
+                queues.rx.push_back((idx, rx));
                 queues.inflight.push_back((idx, Some(tx), AckType::Complete));
                 Ok(())
             } else if matches!(pkt, Ack::Complete(_)) {
                 // get publish ack channel
                 log::trace!("Ack packet complete with id: {}", pkt.packet_id());
                 queues.inflight_ids.remove(&pkt.packet_id());
-                queues.rx.take();
+                queues.rx.retain(|(id, _)| *id != idx);
 
                 if let Some(tx) = tx {
                     let _ = tx.send(pkt);
@@ -578,7 +578,12 @@ impl MqttShared {
         &self,
         pkt: codec::PublishAck2,
     ) -> Result<pool::Receiver<Ack>, SendPacketError> {
-        let Some(rx) = self.queues.borrow_mut().rx.take() else {
+        let rx = {
+            let mut queues = self.queues.borrow_mut();
+            let pos = queues.rx.iter().position(|(id, _)| *id == pkt.packet_id);
+            pos.and_then(|pos| queues.rx.remove(pos))
+        };
+        let Some((_, rx)) = rx else {
             return Err(SendPacketError::UnexpectedRelease);
         };
 
